@@ -300,4 +300,257 @@ theorem step_frame (F : Nat → Bytes → Bytes) (s : Sys) (op : Op) (hd : s.dis
       rw [hm]
       simp
 
+/-! ### durability: what did not persist did not change (channel-level instance for C11) -/
+
+theorem np_validate (c : Chan) (n info : Nat) (sv : SigFact) (pk : Bool)
+    (h : (validate c n info sv pk).persisted = false) : (validate c n info sv pk).c = c := by
+  revert h
+  unfold validate fail
+  dsimp only
+  repeat' split
+  all_goals intro h
+  all_goals first
+    | rfl
+    | (simp at h; done)
+
+theorem np_revoke (c : Chan) (n : Nat) (hs : c.slot = .ready) (h : (revoke c n).persisted = false)
+    (hp : (revoke c n).out.res ≠ .panic) : (revoke c n).c = c := by
+  revert h hp
+  unfold revoke fail
+  dsimp only
+  split
+  · intro _ _; rfl
+  · rename_i hne
+    have hn : n = c.next := by simpa using hne
+    split
+    · intro _ _; rfl
+    · split
+      · intro _ _; rfl
+      · split
+        · intro _ hp; exact absurd rfl hp
+        · rename_i hm
+          split
+          · intro h; simp at h
+          · rename_i hnok
+            exfalso
+            exact hnok (release_adv_ok _ n hs rfl (by omega))
+
+theorem np_simple_activate (c : Chan) (h : (activate c).persisted = false) : (activate c).c = c := by
+  revert h; unfold activate fail
+  repeat' split
+  all_goals intro h
+  all_goals first
+    | rfl
+    | (simp at h; done)
+
+theorem np_signHolder (c : Chan) (n : Nat) (h : (signHolder c n).persisted = false) : (signHolder c n).c = c := by
+  revert h; unfold signHolder fail
+  repeat' split
+  all_goals intro h
+  all_goals first
+    | rfl
+    | (simp at h; done)
+
+theorem np_signRecovery (c : Chan) (h : (signRecovery c).persisted = false) : (signRecovery c).c = c := by
+  revert h; unfold signRecovery fail
+  repeat' split
+  all_goals intro h
+  all_goals first
+    | rfl
+    | (simp at h; done)
+
+theorem np_signRedundant (c : Chan) (n info : Nat) (pk : Bool)
+    (h : (signRedundant c n info pk).persisted = false) : (signRedundant c n info pk).c = c := by
+  revert h; unfold signRedundant fail
+  repeat' split
+  all_goals intro h
+  all_goals first
+    | rfl
+    | (simp at h; done)
+
+theorem np_signMutualClose (c : Chan) (pk : Bool)
+    (h : (signMutualClose c pk).persisted = false) : (signMutualClose c pk).c = c := by
+  revert h; unfold signMutualClose fail
+  repeat' split
+  all_goals intro h
+  all_goals first
+    | rfl
+    | (simp at h; done)
+
+theorem np_signCp (c : Chan) (n pt info : Nat) (pk : Bool)
+    (h : (signCp c n pt info pk).persisted = false) : (signCp c n pt info pk).c = c := by
+  by_cases hok : (signCp c n pt info pk).out.res = .ok
+  · rw [signCp_ok_persisted hok] at h; cases h
+  · exact signCp_notok hok
+
+theorem np_revokeCp (F : Nat → Bytes → Bytes) (c : Chan) (n : Nat) (s : Bytes) (pt : Nat)
+    (h : (revokeCp F c n s pt).persisted = false) : (revokeCp F c n s pt).c = c := by
+  by_cases hok : (revokeCp F c n s pt).out.res = .ok
+  · rw [revokeCp_ok_persisted hok] at h; cases h
+  · exact revokeCp_notok hok
+
+theorem np_needReady (c : Chan) (f : Chan → R)
+    (hf : c.slot = .ready → (f c).persisted = false → (f c).out.res ≠ .panic → (f c).c = c)
+    (h : (needReady c f).persisted = false) (hp : (needReady c f).out.res ≠ .panic) : (needReady c f).c = c := by
+  revert h hp
+  unfold needReady
+  split
+  · intro _ _; rfl
+  · rename_i hs; exact hf hs
+
+theorem validate_ok_persisted (c : Chan) (n info : Nat) (sv : SigFact) (pk : Bool)
+    (h : (validate c n info sv pk).out.res = .ok) : (validate c n info sv pk).persisted = true := by
+  revert h
+  unfold validate fail
+  dsimp only
+  repeat' split
+  all_goals intro h
+  all_goals first
+    | rfl
+    | (simp at h; done)
+    | (exfalso; rename_i hr; exact hr h)
+
+/-- **durability, channel level**: a reply that is not a panic and did not persist left the channel
+    state unchanged -/
+theorem chanStep_np (F : Nat → Bytes → Bytes) (c : Chan) (op : Op)
+    (h : (chanStep F c op).persisted = false) (hp : (chanStep F c op).out.res ≠ .panic) :
+    (chanStep F c op).c = c := by
+  cases op with
+  | setup =>
+    revert h
+    simp only [chanStep]
+    split
+    · intro h; simp at h
+    · intro _; rfl
+  | getPoint n => rfl
+  | getSecret n => rfl
+  | getSecretOrNone n => rfl
+  | validate n info sv pk => exact np_needReady c (validate · n info sv pk) (fun _ h _ => np_validate c n info sv pk h) h hp
+  | revoke n => exact np_needReady c (revoke · n) (fun hs h hp => np_revoke c n hs h hp) h hp
+  | activate => exact np_needReady c activate (fun _ h _ => np_simple_activate c h) h hp
+  | signHolder n => exact np_needReady c (signHolder · n) (fun _ h _ => np_signHolder c n h) h hp
+  | signRecovery => exact np_needReady c signRecovery (fun _ h _ => np_signRecovery c h) h hp
+  | signRedundant n info pk => exact np_needReady c (signRedundant · n info pk) (fun _ h _ => np_signRedundant c n info pk h) h hp
+  | signMutualClose pk => exact np_needReady c (signMutualClose · pk) (fun _ h _ => np_signMutualClose c pk h) h hp
+  | signCp n pt info pk => exact np_needReady c (signCp · n pt info pk) (fun _ h _ => np_signCp c n pt info pk h) h hp
+  | revokeCp n s pt => exact np_needReady c (revokeCp F · n s pt) (fun _ h _ => np_revokeCp F c n s pt h) h hp
+  | restart => rfl
+  | hValidate ver n info sv pk =>
+    simp only [chanStep] at h hp ⊢
+    refine np_needReady c _ (fun _ => ?_) h hp
+    unfold andThen
+    split
+    · rename_i hok
+      intro h2
+      simp [validate_ok_persisted c n info sv pk hok] at h2
+    · intro h2 _
+      exact np_validate c n info sv pk h2
+  | hRevoke ver n =>
+    revert h hp
+    simp only [chanStep]
+    split
+    · intro _ _; rfl
+    · intro h hp
+      refine np_needReady c _ (fun hs => ?_) h hp
+      split
+      · intro _ _; rfl
+      · split
+        · rename_i hcond
+          intro _ _
+          exact revoke_ok_nosecret c (n + 1) (by omega) hcond.1 hcond.2
+        · intro h2 hp2; exact np_revoke c (n + 1) hs h2 hp2
+  | hGetPoint ver n =>
+    simp only [chanStep]
+    repeat' split
+    all_goals rfl
+  | hGetPoint2 n => rfl
+
+/-- **Enforcement_durable_step**: if the persisted copy is up to date before a request and the reply is
+    not a panic, it is up to date afterwards -/
+theorem step_durable (F : Nat → Bytes → Bytes) (s : Sys) (op : Op) (hd : s.disk = s.mem)
+    (hp : (step F s op).2.res ≠ .panic) : (step F s op).1.disk = (step F s op).1.mem := by
+  by_cases hr : op = .restart
+  · subst hr; rfl
+  · rw [step_eq F s hr] at hp ⊢
+    dsimp only [sysAfter] at hp ⊢
+    split
+    · rfl
+    · rename_i hnp
+      rw [hd, chanStep_np F s.mem op (by simpa using hnp) hp]
+
+/-- no reply in the history is a panic -/
+def NoPanic (h : Hist) : Prop := ∀ e ∈ h, e.2.res ≠ .panic
+
+theorem run_durable (F : Nat → Bytes → Bytes) (ops : List Op) (s : Sys) (h : Hist)
+    (hd : s.disk = s.mem) (hnp : NoPanic (runH F s h ops).2) :
+    (runH F s h ops).1.disk = (runH F s h ops).1.mem := by
+  induction ops generalizing s h with
+  | nil => exact hd
+  | cons op rest ih =>
+    simp only [runH] at hnp ⊢
+    apply ih _ _ ?_ hnp
+    apply step_durable F s op hd
+    -- the event of this step is in the final history
+    have hmem : ∀ (ops : List Op) (s : Sys) (h : Hist) (e : Op × Out), e ∈ h → e ∈ (runH F s h ops).2 := by
+      intro ops
+      induction ops with
+      | nil => intro s h e he; exact he
+      | cons o r ih2 => intro s h e he; exact ih2 _ _ e (List.mem_cons_of_mem _ he)
+    exact hnp _ (hmem rest _ _ _ List.mem_cons_self)
+
+/-! ### the remaining `panic` of the holder side needs 2^64-1 accepted advances -/
+
+theorem next_le_step (F : Nat → Bytes → Bytes) {s : Sys} {h : Hist} (inv : K s h) (op : Op) :
+    (step F s op).1.mem.next ≤ s.mem.next + 1 := by
+  by_cases hr : op = .restart
+  · subst hr; simp only [step]; rw [inv.dnext]; omega
+  · rw [step_eq F s hr]
+    have f := chanStep_facts F s.mem inv.fresh op
+    dsimp only [sysAfter]
+    by_cases hlt : s.mem.next < (chanStep F s.mem op).c.next
+    · have := (f.adv_secret hlt).1; omega
+    · omega
+
+theorem run_next_le (F : Nat → Bytes → Bytes) (ops : List Op) (s : Sys) (h : Hist) (inv : K s h)
+    (nn : NoNewAfterSign h) :
+    (runH F s h ops).1.mem.next ≤ s.mem.next + ops.length := by
+  induction ops generalizing s h with
+  | nil => simp [runH]
+  | cons op rest ih =>
+    have st := K_step F inv op
+    have := ih _ _ st.1 ⟨st.2, nn⟩
+    have h1 := next_le_step F inv op
+    simp only [runH, List.length_cons]
+    omega
+
+theorem revoke_panic_only_overflow (c : Chan) (n : Nat) (h : (revoke c n).out.res = .panic) :
+    c.next + 1 > U64.MAX := by
+  revert h
+  unfold revoke fail
+  dsimp only
+  split
+  · intro h
+    exfalso
+    revert h
+    unfold release getSecret
+    repeat' split
+    all_goals simp
+  · rename_i hne
+    have hn : n = c.next := by simpa using hne
+    split
+    · intro h; simp at h
+    · split
+      · intro h; simp at h
+      · split
+        · intro _; omega
+        · split
+          · rename_i hok
+            intro h; rw [hok] at h; cases h
+          · intro h
+            exfalso
+            revert h
+            unfold release getSecret
+            repeat' split
+            all_goals simp
+
 end VlsModel.Enforcement
